@@ -78,14 +78,15 @@ _R["$fields"].types.update({"PositionMarker.line_number": "int", "PositionMarker
                             "MarkdownToken._MarkdownToken__line_number": "int", "MarkdownToken._MarkdownToken__column_number": "int"})
 
 register(Contract(
-    key=MT + "__init__", properties=["C05"],
+    key=MT + "__init__", properties=["C05", "C04"],
     types={"position_marker": "Optional[PositionMarker]"},
     # a token built from a position marker sits at the marker's line and at column index + indent + 1 (1-based);
     # otherwise at exactly the line / column it was given
     ensures=["implies(position_marker is not None, self.line_number == position_marker.line_number and "
              "self.column_number == position_marker.index_number + position_marker.index_indent + 1)",
              "implies(position_marker is None, self.line_number == line_number and self.column_number == column_number)",
-             "self.token_name is token_name"],
+             "self.token_name is token_name", "self._MarkdownToken__token_class == token_class",
+             "self.requires_end_token == requires_end_token", "self.can_force_close == can_force_close"],
     modifies=["self.__token_name", "self.__token_class", "self.__extra_data", "self.__line_number", "self.__column_number",
               "self.__is_extension", "self.__requires_end_token", "self.__can_force_close", "self.__is_special"],
 ))
